@@ -73,7 +73,7 @@ CLAIMS = {
 PARTIAL = {
  "C04": "The theorem needs Forall scalar s (model characters are unbounded naturals; a Rust &str only holds scalars: witness C04_scalar_needed). The tie model <-> implementation is the executed correspondence. ",
  "C05": "PARTIAL BY NATURE: the NUMBER of nested frames is proved bounded for all inputs, but bytes per frame (hence actual stack use), wall time and the allocator are runtime facts outside the model; they are validated by running big inputs under a hang guard. Trusted additionally: the logos DFA semantics as modelled in Model/Lexer.v and the transliteration of the lelwel parser in Model/Parser.v, both tied to /repo by token/CST correspondence. ",
- "C07": "The tie model <-> implementation is the executed correspondence; names spelled with an escape re-read as the decoded name (keys_ok excludes them by definition). ",
+ "C07": "The tie model <-> implementation is the executed correspondence. Member names spelled with escapes ARE covered by same_tree_same_result (json_text relates a text to the tree with decoded names; Example C07_escaped_names_same_tree); only the model's own renderer (parse_render, hypothesis keys_ok) never produces escaped names - the checks re-spell names on the implementation. ",
  "C12": "Partial by nature: allocator, stack and wall-clock are runtime; the theorems bound call counts, allocations are measured.", "C03": "Partial: the theorem covers exactly the complement of the known class KF2 (merged shape OneOf-free); inside KF2 the property is refuted by witness.", "C13": "Partial: 'wf_module implies rustc accepts' is validated on rustc batches, not proved; codegen / convert_case / checksum are modelled (printable-ASCII member names) and validated by correspondence. ",
  "C14": "Partial: the item parser applied to the real text is Python (validated against the model's item list on every case). ",
  "C15": "Partial: serde_derive / serde_json are external - modelled (Model/Gen.v deser/reser) and validated by compile-and-run batches in the thorough tier; modules are judged by their items (the header is C13's business; the defect F12 is repaired). ",
